@@ -61,6 +61,7 @@ ObjWellFormed(obj) ==
     /\ \A f \in DOMAIN obj.rels :
           /\ obj.rels[f].selfok /\ obj.rels[f].relatedok
           /\ obj.rels[f].data \in {"absent", "null", "one", "many"}   \* "bad" otherwise
+          /\ obj.rels[f].typesok      \* every member of the linkage is an object made of the target type and an id
 
 WellFormed(doc, out) ==
     /\ out.valid /\ out.topobject
